@@ -135,6 +135,12 @@ func (o *CandidateNode) UnmarshalYAML(node *yaml.Node, anchorMap map[string]*Can
 		log.Debug("UnmarshalYAML - alias from yaml: %v", o.Tag)
 		o.Kind = AliasNode
 		o.copyFromYamlNode(node, anchorMap)
+		// an alias of a node it sits in has no finite value (and sends everything that follows aliases round in circles)
+		for ancestor := o.Parent; ancestor != nil && o.Alias != nil; ancestor = ancestor.Parent {
+			if ancestor == o.Alias {
+				return fmt.Errorf("alias *%v refers to the node it is part of", node.Value)
+			}
+		}
 		return nil
 	case yaml.ScalarNode:
 		log.Debugf("UnmarshalYAML -  a scalar")
